@@ -539,7 +539,9 @@ class ChangePoint(CovarianceFunction):
         # combine parameter bounds for K1, K2 and the change-point
         self.bounds = []
         for cov in self.cov:
-            cov.estimate_hyperpar_bounds(y)
+            # estimate bounds for the kernels where they were not specified
+            if cov.bounds is None:
+                cov.estimate_hyperpar_bounds(y)
             self.bounds.extend(cov.bounds)
 
         if self.location_bounds is None:
